@@ -455,6 +455,7 @@ type vROp struct {
 }
 
 type vRCase struct {
+	name                       string
 	ndb                        int
 	keys                       [][2]int
 	ops                        []vROp
@@ -670,6 +671,496 @@ func vRCompareHolds(prefix string, want []vRHold, got []vRHold, why func(h vRHol
 	return out
 }
 
+type vREnv struct {
+	out, jout, rout *vOut
+	root            string
+	stats           map[string]int
+	nmon            map[string]int
+	rseq            int
+}
+
+func (e *vREnv) monitor(sig, what string, replay interface{}) {
+	e.nmon[sig]++
+	limit := 3
+	if sig == "C07:replay:?" {
+		limit = 60 // classified afterwards (by the model's first-differing-record class); keep enough of them
+	}
+	if e.nmon[sig] <= limit {
+		e.out.monitor(sig, what, replay)
+	}
+}
+
+// restartPinned: a FRESH SLock on a FRESH copy of src (a start-up compacts the directory it loads), with the load pinned to ONE
+// real second: LoadAndInit / loadRewriteAofFiles read time.Now() themselves, so a load during which the wall second changed is
+// thrown away and repeated. Returns the snapshot, the second, and "ok" | "err" | "clock".
+func (e *vREnv) restartPinned(src string, c *vRCase) (*vRSnap, int64, string) {
+	for attempt := 0; attempt < 6; attempt++ {
+		e.rseq++
+		d := filepath.Join(filepath.Dir(src), fmt.Sprintf("r%d", e.rseq))
+		vRCopyDir(src, d)
+		now := time.Now().Unix()
+		m, err := vRStart(d, now, c.ndb, c.bufSize, 67174400, c.aofT)
+		same := time.Now().Unix() == now
+		if err != nil {
+			m.stop()
+			if !same {
+				continue
+			}
+			return nil, now, "err"
+		}
+		sn := m.snapshot(c.keys)
+		ok := m.clockOK()
+		m.stop()
+		_ = os.RemoveAll(d)
+		if !ok {
+			return nil, now, "clock"
+		}
+		if !same {
+			e.stats["second-boundary-retries"]++
+			continue
+		}
+		return sn, now, "ok"
+	}
+	return nil, 0, "clock"
+}
+
+// replayCheck: the holds a restart built (sn, at second now) against what the journal means, minus the holds that expired during
+// the outage; true deadlines are taken from the database that wrote the journal where it still had the hold. Differences are
+// reported as "C07:replay:?" — the check script replaces "?" by the model's class of the first record of that key that the
+// restart treats differently (reload vs recover), or "other".
+func (e *vREnv) replayCheck(recs []vRRec, sn *vRSnap, now, base int64, line int, origBy map[[3]int]vRHold, replay map[string]interface{}) map[[2]int]bool {
+	ideal := vRRecover(recs, base)
+	var want []vRHold
+	for _, h := range ideal.list() {
+		if o, ok := origBy[h.id()]; ok && o.isAof && o.eflag == h.eflag && o.depth == h.depth {
+			h.deadline = o.deadline // the journal's deadline is an upper estimate for minute / millisecond holds
+		}
+		if h.deadline == 0x7fffffffffffffff || h.deadline > now {
+			want = append(want, h)
+		}
+	}
+	wantBy := map[[3]int]vRHold{}
+	for _, h := range want {
+		wantBy[h.id()] = h
+	}
+	near := func(h vRHold) bool {
+		// a hold with at most one unit + 2 s to live at the restart may legitimately be restored or not
+		o, ok := wantBy[h.id()]
+		if !ok {
+			if x, ok2 := ideal.holds[h.id()]; ok2 {
+				o = *x
+			} else {
+				return false
+			}
+		}
+		unit, _ := vRUnit(o.eflag)
+		return o.deadline != 0x7fffffffffffffff && o.deadline >= now-unit-2 && o.deadline <= now+unit+2
+	}
+	bad := map[[2]int]bool{}
+	for _, d := range vRCompareHolds("R", want, sn.holds, func(vRHold) string { return "x" }, near, true) {
+		what := strings.Split(d.sig, ":")[1]
+		eflag := 0
+		if o, ok := ideal.holds[d.id]; ok {
+			eflag = o.eflag
+		} else {
+			for _, g := range sn.holds {
+				if g.id() == d.id {
+					eflag = g.eflag
+				}
+			}
+		}
+		_, ucls := vRUnit(eflag)
+		bad[[2]int{d.id[0], d.id[1]}] = true
+		sig := "C07:replay:?"
+		if ucls == "milliseconds" && (what == "deadline-renewed" || what == "restored-extra") {
+			sig = "C07:deadline-renewed:milliseconds" // recorded finding F5: the record keeps the original duration
+		}
+		rp := map[string]interface{}{"reloadLine": line, "db": d.id[0], "key": d.id[1], "effect": what}
+		for k, v := range replay {
+			rp[k] = v
+		}
+		e.monitor(sig, "journal vs restart ("+what+"): "+d.what, rp)
+	}
+	vals := map[[2]int]string{}
+	for _, k := range sn.keys {
+		if k.value != nil {
+			vals[[2]int{k.db, k.key}] = vHex(k.value)
+		}
+	}
+	for k, iv := range ideal.values {
+		keep := false
+		for _, h := range want {
+			if h.db == k[0] && h.key == k[1] && !near(h) {
+				keep = true
+			}
+		}
+		if keep && !bad[k] && vals[k] != iv {
+			bad[k] = true
+			rp := map[string]interface{}{"reloadLine": line, "db": k[0], "key": k[1], "effect": "value-mismatch"}
+			for kk, v := range replay {
+				rp[kk] = v
+			}
+			e.monitor("C07:replay:?", fmt.Sprintf("journal vs restart (value-mismatch): db %d key %d: the journal describes value %s, the restart restores %q", k[0], k[1], iv, vals[k]), rp)
+		}
+	}
+	return bad
+}
+
+func (e *vREnv) runCase(it int, c *vRCase) {
+	stats := e.stats
+	dir := filepath.Join(e.root, fmt.Sprintf("c%d", it))
+	_ = os.Mkdir(dir, 0755)
+	defer func() {
+		if os.Getenv("VERIF_KEEP_DIRS") == "" {
+			_ = os.RemoveAll(dir)
+		}
+	}()
+	odir := filepath.Join(dir, "orig")
+	_ = os.Mkdir(odir, 0755)
+	base := time.Now().Unix() - int64(c.outage) - int64(c.duration) - 1
+	n, err := vRStart(odir, base, c.ndb, c.bufSize, c.rewriteSize, c.aofT)
+	if err != nil {
+		panic(err)
+	}
+	opstr := make([]string, len(c.ops))
+	for i, o := range c.ops {
+		opstr[i] = o.String()
+		if o.cmd != nil {
+			n.do(*o.cmd)
+			if o.cmd.eflag&protocol.EXPRIED_FLAG_MILLISECOND_TIME != 0 {
+				time.Sleep(3 * time.Millisecond) // the millisecond wheel hands the hold to the second wheel from its own goroutine
+			}
+		} else {
+			for k := 0; k < o.tick; k++ {
+				n.tick()
+			}
+		}
+	}
+	history := strings.Join(opstr, " ")
+	// the original node stops at  real now − outage; for a compaction (outage 0) the snapshot, the journal copy and the compaction
+	// itself must fall into ONE real second (the compaction filters expired records against time.Now())
+	var orig *vRSnap
+	var tEnd int64
+	var dirA, jA, dirB, jB, keepDbg string
+	compactOK := false
+	for attempt := 0; attempt < 5; attempt++ {
+		for n.now < time.Now().Unix()-int64(c.outage) {
+			n.tick()
+		}
+		n.drain()
+		orig = n.snapshot(c.keys)
+		tEnd = n.now
+		dirA = filepath.Join(dir, fmt.Sprintf("a%d", attempt))
+		vRCopyDir(odir, dirA)
+		var nrec, nupd int
+		jA, nrec, nupd = n.journal(dirA, base)
+		if !c.compact {
+			stats["records"] += nrec
+			stats["update-flag-records"] += nupd
+			break
+		}
+		if time.Now().Unix() != n.now {
+			continue
+		}
+		keepDbg = n.debugKeep(dirA, base)
+		// a REAL compaction on the live node (rotate, read the older files, keep-rule against the live database, write
+		// rewrite.aof.tmp, clear, rename)
+		n.s.aof.aofGlock.Lock()
+		_ = n.s.aof.RewriteAofFile(false)
+		n.s.aof.aofGlock.Unlock()
+		n.s.aof.rewriteAofFiles()
+		compactOK = time.Now().Unix() == n.now
+		n.drain()
+		dirB = filepath.Join(dir, "b")
+		vRCopyDir(odir, dirB)
+		jB, _, _ = n.journal(dirB, base)
+		stats["records"] += nrec
+		stats["update-flag-records"] += nupd
+		stats["compactions"]++
+		if !compactOK {
+			stats["compaction-crossed-a-second"]++
+		}
+		break
+	}
+	if !n.clockOK() {
+		stats["clock-escaped"]++
+		n.stop()
+		return
+	}
+	n.stop()
+	if c.compact && dirB == "" {
+		stats["compaction-never-in-one-second"]++
+	}
+
+	snA, nowA, stA := e.restartPinned(dirA, c)
+	if stA == "clock" {
+		stats["clock-escaped"]++
+		return
+	}
+	op := fmt.Sprintf("restart %d %d %d %s", base, nowA-base, c.bufSize, jA)
+	replay := map[string]interface{}{"history": history, "base": base, "end": tEnd - base, "restartAt": nowA - base, "journal": jA,
+		"original": orig.String(base, true), "cfg": fmt.Sprintf("buf=%d aofTime=%d dbs=%d outage=%d compact=%v", c.bufSize, c.aofT, c.ndb, c.outage, c.compact), "corpus": c.name}
+	if stA == "err" {
+		e.out.emit(op, "err")
+		e.monitor("C07:restart-fails", "the start-up on an un-cut directory written by the server itself fails", replay)
+		return
+	}
+	e.out.emit(op, snA.String(base, false))
+	lineA := e.rout.n
+	e.rout.emit(fmt.Sprintf("aofreload %d %s", nowA-base, jA), snA.String(base, false))
+	replay["restored"] = snA.String(base, false)
+	stats["cases"]++
+	if c.name != "" {
+		stats["corpus-cases"]++
+	}
+	stats["holds-original"] += len(orig.holds)
+	stats["holds-restored"] += len(snA.holds)
+	// ---- the journal, read as a specification (vRRecover)
+	recsA := vRParseJournal(jA)
+	ideal := vRRecover(recsA, base)
+	e.jout.emit("aofjournal "+jA, ideal.String(base))
+	replay["journalMeans"] = ideal.String(base)
+	origBy := map[[3]int]vRHold{}
+	var origAof []vRHold
+	for _, h := range orig.holds {
+		origBy[h.id()] = h
+		if h.isAof {
+			origAof = append(origAof, h)
+		}
+	}
+	// ---- C07 (journal side): the journal describes exactly the journalled holds of the database at the moment it stopped
+	nearEnd := func(h vRHold) bool {
+		unit, _ := vRUnit(h.eflag)
+		return h.deadline != 0x7fffffffffffffff && h.deadline <= tEnd+unit+2
+	}
+	badJ := map[[2]int]bool{}
+	for _, d := range vRCompareHolds("J", origAof, ideal.list(), func(vRHold) string { return "x" }, nearEnd, true) {
+		what := strings.Split(d.sig, ":")[1]
+		o := origBy[d.id]
+		_, ucls := vRUnit(o.eflag)
+		switch what {
+		case "restored-missing":
+			what = "hold-missing"
+		case "restored-extra":
+			what = "hold-extra"
+		case "deadline-renewed", "deadline-early":
+			if ucls == "milliseconds" {
+				continue // the record of a millisecond hold does not determine its deadline (it stores the duration)
+			}
+			what = "deadline-mismatch:" + ucls
+		}
+		e.monitor("C07:journal:"+vRJournalCause(recsA, d.id), "journal vs database at stop ("+what+"): "+d.what, replay)
+		badJ[[2]int{d.id[0], d.id[1]}] = true
+	}
+	for _, k := range orig.keys {
+		has := false
+		for _, h := range origAof {
+			if h.db == k.db && h.key == k.key {
+				has = true
+			}
+		}
+		if iv, ok := ideal.values[[2]int{k.db, k.key}]; has && !badJ[[2]int{k.db, k.key}] && k.valueAof && (!ok || iv != vHex(k.value)) {
+			e.monitor("C07:journal:value-mismatch", fmt.Sprintf("db %d key %d: the database holds value %s, the journal describes %q", k.db, k.key, vHex(k.value), iv), replay)
+		}
+	}
+	// ---- C07 (replay side)
+	bad := e.replayCheck(recsA, snA, nowA, base, lineA, origBy, replay)
+
+	// ---- C16
+	if dirB == "" {
+		return
+	}
+	recsB := vRParseJournal(jB)
+	idealB := vRRecover(recsB, base)
+	// both recoveries in the SAME real second
+	var snB *vRSnap
+	var nowB int64
+	stB := "clock"
+	for attempt := 0; attempt < 4; attempt++ {
+		snB, nowB, stB = e.restartPinned(dirB, c)
+		if stB != "ok" || nowB == nowA {
+			break
+		}
+		var st string
+		snA, nowA, st = e.restartPinned(dirA, c)
+		if st != "ok" {
+			stB = "clock"
+			break
+		}
+		if nowA == nowB {
+			break
+		}
+		stB = "clock"
+	}
+	if stB == "clock" {
+		stats["clock-escaped"]++
+		return
+	}
+	replay2 := map[string]interface{}{"history": history, "base": base, "end": tEnd - base, "journalBefore": jA, "journalAfter": jB,
+		"original": orig.String(base, true), "recoveredBefore": snA.String(base, false), "restartAt": nowB - base, "keepDecisionsBeforeCompaction": keepDbg, "corpus": c.name}
+	if stB == "err" {
+		e.monitor("C16:compaction-startup-fails", "the start-up on the directory a complete compaction left fails", replay2)
+		return
+	}
+	replay2["recoveredAfter"] = snB.String(base, false)
+	lineB := e.rout.n
+	e.rout.emit(fmt.Sprintf("aofreload %d %s", nowB-base, jB), snB.String(base, false))
+	rpB := map[string]interface{}{"history": history, "base": base, "restartAt": nowB - base, "journal": jB, "restored": snB.String(base, false), "afterCompaction": true, "corpus": c.name}
+	_ = e.replayCheck(recsB, snB, nowB, base, lineB, origBy, rpB)
+	nearB := func(h vRHold) bool {
+		unit, _ := vRUnit(h.eflag)
+		return h.deadline != 0x7fffffffffffffff && h.deadline <= nowB+unit+2
+	}
+	// which records of a hold did the compaction drop, and did one of them carry the hold's LIVE terms?
+	type rk struct {
+		kind            byte
+		ct              int64
+		stored, fl, afl int
+	}
+	dropCause := func(id [3]int) string {
+		after := map[rk]int{}
+		for _, r := range recsB {
+			if [3]int{r.db, r.key, r.id} == id {
+				after[rk{r.kind, r.ct, r.stored, r.flag, r.aofFlag &^ 1}]++
+			}
+		}
+		dropped, expired, live := 0, 0, false
+		o, okO := origBy[id]
+		for _, r := range recsA {
+			if [3]int{r.db, r.key, r.id} != id {
+				continue
+			}
+			k := rk{r.kind, r.ct, r.stored, r.flag, r.aofFlag &^ 1}
+			if after[k] > 0 {
+				after[k]--
+				continue
+			}
+			dropped++
+			if r.dead(tEnd - base) {
+				expired++
+				continue
+			}
+			if r.kind == 'L' && okO && r.count == o.count && r.rcount == o.rcount && r.eflag&0x4440 == o.eflag {
+				unit, _ := vRUnit(o.eflag)
+				rd := r.deadline()
+				if rd != 0x7fffffffffffffff {
+					rd += base
+				}
+				if rd == o.deadline || (rd != 0x7fffffffffffffff && o.deadline != 0x7fffffffffffffff && rd-o.deadline <= unit+1 && o.deadline-rd <= unit+1) {
+					live = true
+				}
+			}
+		}
+		switch {
+		case live:
+			return "live-record-dropped"
+		case expired > 0:
+			return "expired-level-record-dropped"
+		case dropped > 0:
+			return "superseded-level-record-dropped"
+		}
+		return "no-record-dropped"
+	}
+	badB := map[[2]int]bool{}
+	// (1) the MEANING of the journal (vRRecover) before and after the compaction, holds alive now. A compaction during which the
+	// wall second changed is not judged (its own expired-record filter may have used either second).
+	alive := func(st *vRIdeal) []vRHold {
+		var o []vRHold
+		for _, h := range st.list() {
+			if h.deadline == 0x7fffffffffffffff || h.deadline > nowB {
+				o = append(o, h)
+			}
+		}
+		return o
+	}
+	replay2["journalMeansBefore"], replay2["journalMeansAfter"] = ideal.String(base), idealB.String(base)
+	if compactOK {
+		for _, d := range vRCompareHolds("C16", alive(ideal), alive(idealB), func(vRHold) string { return "x" }, nearB, true) {
+			what := strings.Split(d.sig, ":")[1]
+			switch what {
+			case "restored-missing":
+				what = "drops-live-hold"
+			case "restored-extra":
+				what = "resurrects-hold"
+			default:
+				what = "changes-hold:" + what
+			}
+			badB[[2]int{d.id[0], d.id[1]}] = true
+			e.monitor("C16:compaction:"+dropCause(d.id), "meaning of the journal before vs after the compaction ("+what+"): "+d.what, replay2)
+		}
+		for k, v := range ideal.values {
+			held := false
+			for _, h := range alive(idealB) {
+				if h.db == k[0] && h.key == k[1] && !nearB(h) {
+					held = true
+				}
+			}
+			if held && !badB[k] && idealB.values[k] != v {
+				badB[k] = true
+				vc := "value-record-dropped"
+				for id := range ideal.nrec {
+					if id[0] == k[0] && id[1] == k[1] && dropCause(id) == "live-record-dropped" {
+						vc = "live-record-dropped"
+					}
+				}
+				e.monitor("C16:compaction:"+vc, fmt.Sprintf("(value) db %d key %d: the journal describes value %s before the compaction, %q after", k[0], k[1], v, idealB.values[k]), replay2)
+			}
+		}
+	}
+	// (2) the real recovery of both directories (same real second), on the keys where the recovery of the ORIGINAL files is what
+	// the journal means. A difference is reported only when a second pair of fresh recoveries shows it again.
+	abDiffs := func(a, b *vRSnap) map[string]vRDiff {
+		m := map[string]vRDiff{}
+		for _, d := range vRCompareHolds("C16", a.holds, b.holds, func(vRHold) string { return "x" }, nearB, true) {
+			if bad[[2]int{d.id[0], d.id[1]}] || badB[[2]int{d.id[0], d.id[1]}] {
+				continue
+			}
+			m[fmt.Sprint(d.sig, d.id)] = d
+		}
+		valsB := map[[2]int]string{}
+		for _, k := range b.keys {
+			if k.value != nil {
+				valsB[[2]int{k.db, k.key}] = vHex(k.value)
+			}
+		}
+		for _, k := range a.keys {
+			kk := [2]int{k.db, k.key}
+			held := false
+			for _, h := range b.holds {
+				if h.db == k.db && h.key == k.key && !nearB(h) {
+					held = true
+				}
+			}
+			if held && !badB[kk] && !bad[kk] && k.value != nil && valsB[kk] != vHex(k.value) {
+				m[fmt.Sprint("value", kk)] = vRDiff{"C16:value", fmt.Sprintf("(value) db %d key %d: value %s recovered before the compaction, %q after", k.db, k.key, vHex(k.value), valsB[kk]), [3]int{k.db, k.key, 0}}
+			}
+		}
+		return m
+	}
+	d1 := abDiffs(snA, snB)
+	if len(d1) > 0 {
+		a2, na2, s1 := e.restartPinned(dirA, c)
+		b2, nb2, s2 := e.restartPinned(dirB, c)
+		if s1 == "ok" && s2 == "ok" && na2 == nb2 {
+			d2 := abDiffs(a2, b2)
+			for k, d := range d1 {
+				if _, again := d2[k]; !again {
+					stats["ab-difference-not-reproduced"]++
+					continue
+				}
+				what := strings.Split(d.sig, ":")[1]
+				cause := dropCause(d.id)
+				if what == "value" {
+					cause = "value-record-dropped"
+				}
+				e.monitor("C16:compaction:"+cause, "recover(before compaction) vs recover(after), twice ("+what+"): "+d.what, replay2)
+			}
+		} else {
+			stats["ab-difference-not-rechecked"]++
+		}
+	}
+}
+
 func init() {
 	vModes["restart"] = func(t *testing.T) {
 		r := rand.New(rand.NewSource(int64(vEnvInt("VERIF_SEED", 1))))
@@ -678,6 +1169,8 @@ func init() {
 		defer out.close()
 		jout := vOpen("aofjournal")
 		defer jout.close()
+		rout := vOpen("aofreload")
+		defer rout.close()
 		base0 := os.Getenv("VERIF_DATA")
 		if base0 == "" {
 			panic("VERIF_DATA must be set (scratch dir)")
@@ -689,411 +1182,126 @@ func init() {
 		if os.Getenv("VERIF_KEEP_DIRS") == "" {
 			defer os.RemoveAll(root)
 		}
-		nmon := map[string]int{}
-		monitor := func(sig, what string, replay interface{}) {
-			nmon[sig]++
-			if nmon[sig] <= 3 {
-				out.monitor(sig, what, replay)
-			}
+		e := &vREnv{out: out, jout: jout, rout: rout, root: root, stats: map[string]int{}, nmon: map[string]int{}}
+		corpus := vRLoadCorpus(os.Getenv("VERIF_CORPUS"))
+		for it, c := range corpus {
+			e.runCase(it, c)
 		}
-		stats := map[string]int{}
 		for it := 0; it < ncase; it++ {
-			c := vRGenCase(r, it)
-			dir := filepath.Join(root, fmt.Sprintf("c%d", it))
-			_ = os.Mkdir(dir, 0755)
-			odir := filepath.Join(dir, "orig")
-			_ = os.Mkdir(odir, 0755)
-			realNow := time.Now().Unix()
-			base := realNow - int64(c.outage) - int64(c.duration) - 1
-			n, err := vRStart(odir, base, c.ndb, c.bufSize, c.rewriteSize, c.aofT)
-			if err != nil {
-				panic(err)
-			}
-			opstr := make([]string, len(c.ops))
-			for i, o := range c.ops {
-				opstr[i] = o.String()
-				if o.cmd != nil {
-					n.do(*o.cmd)
-					if o.cmd.eflag&protocol.EXPRIED_FLAG_MILLISECOND_TIME != 0 {
-						time.Sleep(3 * time.Millisecond) // the millisecond wheel hands the hold to the second wheel from its own goroutine
-					}
-				} else {
-					for k := 0; k < o.tick; k++ {
-						n.tick()
-					}
-				}
-				n.waitRewriteIfRotated()
-			}
-			// catch up: the original node stops at  real now − outage
-			for n.now < time.Now().Unix()-int64(c.outage) {
-				n.tick()
-			}
-			n.drain()
-			orig := n.snapshot(c.keys)
-			tEnd := n.now
-			if !n.clockOK() {
-				stats["clock-escaped"]++
-				n.stop()
-				continue
-			}
-			history := strings.Join(opstr, " ")
-			dirA := filepath.Join(dir, "a")
-			vRCopyDir(odir, dirA)
-			jA, nrec, nupd := n.journal(dirA, base)
-			stats["records"] += nrec
-			stats["update-flag-records"] += nupd
-			var dirB, jB string
-			keepDbg := ""
-			if c.compact {
-				keepDbg = n.debugKeep(dirA, base)
-			}
-			if c.compact {
-				// a REAL compaction on the live node (rotate, read the older files, keep-rule against the live database, write
-				// rewrite.aof.tmp, clear, rename) — virtual clock = real clock at this moment
-				n.s.aof.aofGlock.Lock()
-				_ = n.s.aof.RewriteAofFile(false)
-				n.s.aof.aofGlock.Unlock()
-				n.s.aof.rewriteAofFiles()
-				n.drain()
-				dirB = filepath.Join(dir, "b")
-				vRCopyDir(odir, dirB)
-				jB, _, _ = n.journal(dirB, base)
-				stats["compactions"]++
-			}
-			n.stop()
-
-			restart := func(d string) (*vRSnap, int64, string) {
-				now := time.Now().Unix()
-				m, err := vRStart(d, now, c.ndb, c.bufSize, 67174400, c.aofT)
-				if err != nil {
-					m.stop()
-					return nil, now, "err"
-				}
-				sn := m.snapshot(c.keys)
-				ok := m.clockOK()
-				m.stop()
-				if !ok {
-					return nil, now, "clock"
-				}
-				return sn, now, "ok"
-			}
-			snA, nowA, stA := restart(dirA)
-			if stA == "clock" {
-				stats["clock-escaped"]++
-				continue
-			}
-			op := fmt.Sprintf("restart %d %d %d %s", base, nowA-base, c.bufSize, jA)
-			replay := map[string]interface{}{"history": history, "base": base, "end": tEnd - base, "restartAt": nowA - base, "journal": jA,
-				"original": orig.String(base, true), "cfg": fmt.Sprintf("buf=%d rotate=%d aofTime=%d dbs=%d", c.bufSize, c.rewriteSize, c.aofT, c.ndb)}
-			if stA == "err" {
-				out.emit(op, "err")
-				monitor("C07:restart-fails", "the start-up on an un-cut directory written by the server itself fails", replay)
-				continue
-			}
-			out.emit(op, snA.String(base, false))
-			replay["restored"] = snA.String(base, false)
-			stats["cases"]++
-			stats["holds-original"] += len(orig.holds)
-			stats["holds-restored"] += len(snA.holds)
-			// ---- the journal, read as a specification (vRRecover)
-			recsA := vRParseJournal(jA)
-			ideal := vRRecover(recsA, base)
-			jout.emit("aofjournal "+jA, ideal.String(base))
-			replay["journalMeans"] = ideal.String(base)
-			origBy := map[[3]int]vRHold{}
-			var origAof []vRHold
-			for _, h := range orig.holds {
-				origBy[h.id()] = h
-				if h.isAof {
-					origAof = append(origAof, h)
-				}
-			}
-			// cause class of a replay-side difference: does the KEY have a hold whose history spans several journal records
-			// (re-lock levels, updates, unlock records)? LoadAofFile / the engine re-judge every record on its own at reload time.
-			cause := func(id [3]int) string {
-				tot := 0
-				for k, n := range ideal.nrec {
-					if k[0] == id[0] && k[1] == id[1] {
-						tot += n
-					}
-				}
-				if tot >= 2 {
-					return "multi-record-history"
-				}
-				return "single-record"
-			}
-			// ---- C07 (journal side): the journal describes exactly the journalled holds of the database at the moment it stopped
-			nearEnd := func(h vRHold) bool {
-				unit, _ := vRUnit(h.eflag)
-				return h.deadline != 0x7fffffffffffffff && h.deadline <= tEnd+unit+2
-			}
-			badJ := map[[2]int]bool{}
-			for _, d := range vRCompareHolds("J", origAof, ideal.list(), func(vRHold) string { return "x" }, nearEnd, true) {
-				parts := strings.Split(d.sig, ":")
-				what := parts[1]
-				o := origBy[d.id]
-				_, ucls := vRUnit(o.eflag)
-				switch what {
-				case "restored-missing":
-					what = "hold-missing"
-				case "restored-extra":
-					what = "hold-extra"
-					if x, ok := origBy[d.id]; ok && !x.isAof {
-						what = "hold-extra:not-marked-journalled"
-					}
-				case "deadline-renewed", "deadline-early":
-					if ucls == "milliseconds" {
-						continue // the record of a millisecond hold does not determine its deadline (it stores the duration)
-					}
-					what = "deadline-mismatch:" + ucls
-				}
-				monitor("C07:journal:"+vRJournalCause(recsA, d.id), "journal vs database at stop ("+what+"): "+d.what, replay)
-				badJ[[2]int{d.id[0], d.id[1]}] = true
-			}
-			for _, k := range orig.keys {
-				has := false
-				for _, h := range origAof {
-					if h.db == k.db && h.key == k.key {
-						has = true
-					}
-				}
-				if iv, ok := ideal.values[[2]int{k.db, k.key}]; has && !badJ[[2]int{k.db, k.key}] && k.valueAof && (!ok || iv != vHex(k.value)) {
-					monitor("C07:journal:value-mismatch", fmt.Sprintf("db %d key %d: the database holds value %s, the journal describes %q", k.db, k.key, vHex(k.value), iv), replay)
-				}
-			}
-			// ---- C07 (replay side): restored == { holds the journal describes, not expired during the outage }
-			var want []vRHold
-			for _, h := range ideal.list() {
-				if h.deadline == 0x7fffffffffffffff || h.deadline > nowA {
-					want = append(want, h)
-				}
-			}
-			near := func(h vRHold) bool {
-				// second boundaries: the file filter reads time.Now() a moment after the harness did; a hold within its tolerance of
-				// the restart second may legitimately be there or not
-				o, ok := ideal.holds[h.id()]
-				if !ok {
-					return false
-				}
-				unit, _ := vRUnit(o.eflag)
-				return o.deadline != 0x7fffffffffffffff && o.deadline >= nowA-unit-2 && o.deadline <= nowA+unit+2
-			}
-			why := func(h vRHold) string { return "x" }
-			bad := map[[2]int]bool{}
-			for _, d := range vRCompareHolds("R", want, snA.holds, why, near, true) {
-				parts := strings.Split(d.sig, ":")
-				what := parts[1]
-				eflag := 0
-				if o, ok := ideal.holds[d.id]; ok {
-					eflag = o.eflag
-				} else {
-					for _, g := range snA.holds {
-						if g.id() == d.id {
-							eflag = g.eflag
-						}
-					}
-				}
-				_, ucls := vRUnit(eflag)
-				bad[[2]int{d.id[0], d.id[1]}] = true
-				sig := "C07:replay:" + cause(d.id)
-				if ucls == "milliseconds" && (what == "deadline-renewed" || what == "restored-extra") {
-					sig = "C07:deadline-renewed:milliseconds" // recorded finding F5: the record keeps the original duration
-				}
-				monitor(sig, "journal vs restart ("+what+"): "+d.what, replay)
-			}
-			vals := map[[2]int]string{}
-			for _, k := range snA.keys {
-				if k.value != nil {
-					vals[[2]int{k.db, k.key}] = vHex(k.value)
-				}
-			}
-			for k, iv := range ideal.values {
-				keep := false
-				multi := false
-				for _, h := range want {
-					if h.db == k[0] && h.key == k[1] && !near(h) {
-						keep = true
-					}
-				}
-				multi = cause([3]int{k[0], k[1], 0}) == "multi-record-history"
-				if keep && !bad[k] && vals[k] != iv {
-					c := "single-record"
-					if multi {
-						c = "multi-record-history"
-					}
-					monitor("C07:replay:"+c, fmt.Sprintf("(value-mismatch) "+"db %d key %d: the journal describes value %s, the restart restores %q", k[0], k[1], iv, vals[k]), replay)
-				}
-			}
-			// ---- C16: recovering the compacted directory gives the same holds as recovering the directory it replaced
-			if dirB != "" {
-				snB, nowB, stB := restart(dirB)
-				if stB == "clock" {
-					stats["clock-escaped"]++
-					continue
-				}
-				recsB := vRParseJournal(jB)
-				replay2 := map[string]interface{}{"history": history, "base": base, "end": tEnd - base, "journalBefore": jA, "journalAfter": jB,
-					"original": orig.String(base, true), "recoveredBefore": snA.String(base, false), "restartAt": nowB - base, "keepDecisionsBeforeCompaction": keepDbg}
-				if stB == "err" {
-					monitor("C16:compaction-startup-fails", "the start-up on the directory a complete compaction left fails", replay2)
-					continue
-				}
-				replay2["recoveredAfter"] = snB.String(base, false)
-				nearB := func(h vRHold) bool {
-					unit, _ := vRUnit(h.eflag)
-					return h.deadline != 0x7fffffffffffffff && h.deadline <= nowB+unit+2
-				}
-				// which records of a hold did the compaction drop, and did one of them carry the hold's LIVE terms?
-				type rk struct {
-					kind            byte
-					ct              int64
-					stored, fl, afl int
-				}
-				dropCause := func(id [3]int) string {
-					after := map[rk]int{}
-					for _, r := range recsB {
-						if [3]int{r.db, r.key, r.id} == id {
-							after[rk{r.kind, r.ct, r.stored, r.flag, r.aofFlag &^ 1}]++
-						}
-					}
-					dropped, expired, live := 0, 0, false
-					o, okO := origBy[id]
-					for _, r := range recsA {
-						if [3]int{r.db, r.key, r.id} != id {
-							continue
-						}
-						k := rk{r.kind, r.ct, r.stored, r.flag, r.aofFlag &^ 1}
-						if after[k] > 0 {
-							after[k]--
-							continue
-						}
-						dropped++
-						if r.dead(nowB - base) {
-							expired++
-							continue
-						}
-						if r.kind == 'L' && okO && r.count == o.count && r.rcount == o.rcount && r.eflag&0x4440 == o.eflag {
-							unit, _ := vRUnit(o.eflag)
-							rd := r.deadline()
-							if rd != 0x7fffffffffffffff {
-								rd += base
-							}
-							if rd == o.deadline || (rd != 0x7fffffffffffffff && o.deadline != 0x7fffffffffffffff && rd-o.deadline <= unit+1 && o.deadline-rd <= unit+1) {
-								live = true
-							}
-						}
-					}
-					switch {
-					case live:
-						return "live-record-dropped"
-					case expired > 0:
-						return "expired-level-record-dropped"
-					case dropped > 0:
-						return "superseded-level-record-dropped"
-					}
-					return "no-record-dropped"
-				}
-				badB := map[[2]int]bool{}
-				// (1) the MEANING of the journal (vRRecover) before and after the compaction, holds alive now
-				idealB := vRRecover(recsB, base)
-				alive := func(st *vRIdeal) []vRHold {
-					var o []vRHold
-					for _, h := range st.list() {
-						if h.deadline == 0x7fffffffffffffff || h.deadline > nowB {
-							o = append(o, h)
-						}
-					}
-					return o
-				}
-				replay2["journalMeansBefore"], replay2["journalMeansAfter"] = ideal.String(base), idealB.String(base)
-				seenC16 := map[string]bool{}
-				for _, d := range vRCompareHolds("C16", alive(ideal), alive(idealB), func(vRHold) string { return "x" }, nearB, true) {
-					parts := strings.Split(d.sig, ":")
-					what := parts[1]
-					switch what {
-					case "restored-missing":
-						what = "drops-live-hold"
-					case "restored-extra":
-						what = "resurrects-hold"
-					default:
-						what = "changes-hold:" + what
-					}
-					badB[[2]int{d.id[0], d.id[1]}] = true
-					sig := "C16:compaction:" + dropCause(d.id)
-					seenC16[fmt.Sprint(d.id, what)] = true
-					monitor(sig, "meaning of the journal before vs after the compaction ("+what+"): "+d.what, replay2)
-				}
-				for k, v := range ideal.values {
-					held := false
-					for _, h := range alive(idealB) {
-						if h.db == k[0] && h.key == k[1] && !nearB(h) {
-							held = true
-						}
-					}
-					if held && !badB[k] && idealB.values[k] != v {
-						badB[k] = true
-						vc := "value-record-dropped"
-						for id := range ideal.nrec {
-							if id[0] == k[0] && id[1] == k[1] && dropCause(id) == "live-record-dropped" {
-								vc = "live-record-dropped"
-							}
-						}
-						monitor("C16:compaction:"+vc, fmt.Sprintf("(value) db %d key %d: the journal describes value %s before the compaction, %q after", k[0], k[1], v, idealB.values[k]), replay2)
-					}
-				}
-				// (2) the real recovery of both directories, on the keys where the recovery of the ORIGINAL files is what the journal means
-				for _, d := range vRCompareHolds("C16", snA.holds, snB.holds, func(vRHold) string { return "x" }, nearB, true) {
-					if bad[[2]int{d.id[0], d.id[1]}] || badB[[2]int{d.id[0], d.id[1]}] {
-						continue
-					}
-					parts := strings.Split(d.sig, ":")
-					what := parts[1]
-					switch what {
-					case "restored-missing":
-						what = "drops-live-hold"
-					case "restored-extra":
-						what = "resurrects-hold"
-					default:
-						what = "changes-hold:" + what
-					}
-					badB[[2]int{d.id[0], d.id[1]}] = true
-					monitor("C16:compaction:"+dropCause(d.id), "recover(before compaction) vs recover(after) ("+what+"): "+d.what, replay2)
-				}
-				valsB := map[[2]int]string{}
-				for _, k := range snB.keys {
-					if k.value != nil {
-						valsB[[2]int{k.db, k.key}] = vHex(k.value)
-					}
-				}
-				for _, k := range snA.keys {
-					kk := [2]int{k.db, k.key}
-					held := false
-					for _, h := range snB.holds {
-						if h.db == k.db && h.key == k.key && !nearB(h) {
-							held = true
-						}
-					}
-					if held && !badB[kk] && !bad[kk] && k.value != nil && valsB[kk] != vHex(k.value) {
-						monitor("C16:compaction:value-record-dropped", fmt.Sprintf("(value) db %d key %d: value %s recovered before the compaction, %q after", k.db, k.key, vHex(k.value), valsB[kk]), replay2)
-					}
-				}
-			}
-			if os.Getenv("VERIF_KEEP_DIRS") == "" {
-				_ = os.RemoveAll(dir)
-			}
+			e.runCase(len(corpus)+it, vRGenCase(r, it))
 		}
-		// distribution for the evidence
 		ks := []string{}
-		for k := range stats {
+		for k := range e.stats {
 			ks = append(ks, k)
 		}
 		sort.Strings(ks)
 		parts := []string{}
 		for _, k := range ks {
-			parts = append(parts, fmt.Sprintf("%s=%d", k, stats[k]))
+			parts = append(parts, fmt.Sprintf("%s=%d", k, e.stats[k]))
 		}
 		_ = os.WriteFile(filepath.Join(os.Getenv("VERIF_OUT"), "restart.stats"), []byte(strings.Join(parts, " ")+"\n"), 0644)
 	}
+}
+
+// ---- corpus: hand-minimised histories, one per line:   <name> ndb=<n> buf=<b> aoft=<t> outage=<s> compact=<0|1> | <op> <op> …
+// ops in the syntax of vROp.String():  T<seconds>   or   <L|U>.<db>.<key>.<lockId>.<flag>.<tflag>.<timeout>.<eflag>.<expried>.<count>.<rcount>.<datahex|n>
+
+func vRParseOp(tok string) (vROp, bool) {
+	if strings.HasPrefix(tok, "T") {
+		var t int
+		if _, err := fmt.Sscanf(tok[1:], "%d", &t); err != nil {
+			return vROp{}, false
+		}
+		return vROp{tick: t}, true
+	}
+	f := strings.Split(tok, ".")
+	if len(f) != 12 || (f[0] != "L" && f[0] != "U") {
+		return vROp{}, false
+	}
+	c := &vRCmd{kind: f[0][0]}
+	fmt.Sscanf(f[1], "%d", &c.db)
+	fmt.Sscanf(f[2], "%d", &c.key)
+	fmt.Sscanf(f[3], "%d", &c.lockId)
+	fmt.Sscanf(f[4], "%x", &c.flag)
+	fmt.Sscanf(f[5], "%x", &c.tflag)
+	fmt.Sscanf(f[6], "%d", &c.timeout)
+	fmt.Sscanf(f[7], "%x", &c.eflag)
+	fmt.Sscanf(f[8], "%d", &c.expried)
+	fmt.Sscanf(f[9], "%d", &c.count)
+	fmt.Sscanf(f[10], "%d", &c.rcount)
+	if f[11] != "n" {
+		var b []byte
+		fmt.Sscanf(f[11], "%x", &b)
+		c.data = protocol.NewLockCommandDataFromOriginBytes(b)
+	}
+	return vROp{cmd: c}, true
+}
+
+func vRLoadCorpus(path string) []*vRCase {
+	if path == "" {
+		return nil
+	}
+	raw, err := os.ReadFile(path)
+	if err != nil {
+		panic(err)
+	}
+	var out []*vRCase
+	for _, line := range strings.Split(string(raw), "\n") {
+		line = strings.TrimSpace(line)
+		if line == "" || strings.HasPrefix(line, "#") {
+			continue
+		}
+		hd := strings.SplitN(line, "|", 2)
+		if len(hd) != 2 {
+			panic("corpus line without '|': " + line)
+		}
+		c := &vRCase{rewriteSize: 67174400, bufSize: 4096, ndb: 1}
+		for i, tok := range strings.Fields(hd[0]) {
+			if i == 0 {
+				c.name = tok
+				continue
+			}
+			kv := strings.SplitN(tok, "=", 2)
+			var v int
+			fmt.Sscanf(kv[1], "%d", &v)
+			switch kv[0] {
+			case "ndb":
+				c.ndb = v
+			case "buf":
+				c.bufSize = uint(v)
+			case "aoft":
+				c.aofT = uint(v)
+			case "outage":
+				c.outage = v
+			case "compact":
+				c.compact = v != 0
+			}
+		}
+		seen := map[[2]int]bool{}
+		for _, tok := range strings.Fields(hd[1]) {
+			o, ok := vRParseOp(tok)
+			if !ok {
+				panic("corpus: bad op " + tok)
+			}
+			if o.cmd == nil {
+				c.duration += o.tick
+			} else {
+				if o.cmd.db >= c.ndb {
+					c.ndb = o.cmd.db + 1
+				}
+				if k := [2]int{o.cmd.db, o.cmd.key}; !seen[k] {
+					seen[k] = true
+					c.keys = append(c.keys, k)
+				}
+			}
+			c.ops = append(c.ops, o)
+		}
+		sort.Slice(c.keys, func(i, j int) bool {
+			return c.keys[i][0] < c.keys[j][0] || (c.keys[i][0] == c.keys[j][0] && c.keys[i][1] < c.keys[j][1])
+		})
+		out = append(out, c)
+	}
+	return out
 }
 
 // waitRewriteIfRotated: a rotation during the history starts a compaction goroutine; let it finish before the next operation so
